@@ -19,7 +19,7 @@ pub fn materialize(spec: &str) -> Option<Vec<u8>> {
     if let Some(rest) = spec.strip_prefix("census:alone:") {
         return op_alone_module(rest.parse().ok()?);
     }
-    if spec.starts_with("leb:") || spec.starts_with("lebi:") || spec.starts_with("lebb:") {
+    if spec.starts_with("leb:") || spec.starts_with("lebi:") || spec.starts_with("lebb:") || spec.starts_with("lebn:") || spec.starts_with("lebe:") {
         return materialize_leb(spec);
     }
     if spec.starts_with("dwarf:") {
@@ -107,6 +107,28 @@ pub fn bigs_module(nbig: usize, nsmall: usize, size: usize) -> Vec<u8> {
     m.encode()
 }
 
+/// `n` tiny functions (one parameter each, every second one exported), every function and every parameter named:
+/// function indices beyond 2^16 in the name section.
+pub fn many_named_module(n: usize) -> Vec<u8> {
+    let mut m = MSpec::default();
+    m.types.push((vec![VT::I32], vec![VT::I32]));
+    let mut names = NameSpec::default();
+    for k in 0..n {
+        let mut c = Code::new();
+        c.i64_const(0x5157_0000_0000 + k as i64).drop_();
+        c.local_get(0);
+        let code = c.end();
+        m.funcs.push(FuncSpec { ty: 0, locals: vec![], code });
+        if k % 2 == 0 {
+            m.exports.push(Export { name: format!("f{}", k), kind: ExportKind::Func, index: k as u32 });
+        }
+        names.funcs.push((k as u32, format!("$fn_{}", k)));
+        names.locals.push((k as u32, vec![(0, format!("$l_{}_0", k))]));
+    }
+    m.names = Some(names);
+    m.encode()
+}
+
 pub const LEB_FUNC_COUNTS: [usize; 5] = [1, 2, 127, 128, 129];
 pub const LEB_BODY_SIZES: [usize; 7] = [60, 126, 127, 128, 129, 16383, 16384];
 
@@ -167,6 +189,31 @@ pub fn materialize_leb(spec: &str) -> Option<Vec<u8>> {
         let i: usize = it.next()?.parse().ok()?;
         let l: usize = it.next()?.parse().ok()?;
         return Some(lebi_module(i, l));
+    }
+    if let Some(rest) = spec.strip_prefix("lebe:") {
+        // `n` functions of exactly the same size and shape, told apart by one constant each
+        let n: usize = rest.parse().ok()?;
+        let mut m = MSpec::default();
+        m.types.push((vec![], vec![VT::I32]));
+        for k in 0..n {
+            let mut c = Code::new();
+            // four instructions (an even size in walrus's measure), or five for every seventh function
+            c.f32_const(k as u32).drop_();
+            c.i32_const(1);
+            c.raw(&[0x45]); // i32.eqz
+            if k % 7 == 3 {
+                c.raw(&[0x45]);
+            }
+            let code = c.end();
+            m.funcs.push(FuncSpec { ty: 0, locals: vec![], code });
+            if k % 2 == 0 {
+                m.exports.push(Export { name: format!("f{}", k), kind: ExportKind::Func, index: k as u32 });
+            }
+        }
+        return Some(m.encode());
+    }
+    if let Some(rest) = spec.strip_prefix("lebn:") {
+        return Some(many_named_module(rest.parse().ok()?));
     }
     if let Some(rest) = spec.strip_prefix("lebb:") {
         let mut it = rest.splitn(3, ':');
@@ -718,7 +765,9 @@ fn attr_modules_build() -> Vec<Vec<u8>> {
     let mut mems: Vec<Limits> = Vec::new();
     for is64 in [false, true] {
         for shared in [false, true] {
-            for max in [None, Some(3u64), Some(65536)] {
+            // 64-bit memories also with a maximum that does not fit 32 bits
+            let maxes: Vec<Option<u64>> = if is64 { vec![None, Some(3u64), Some(65536), Some(0x1_0000_0010)] } else { vec![None, Some(3u64), Some(65536)] };
+            for max in maxes {
                 if shared && max.is_none() {
                     continue;
                 }
@@ -787,11 +836,11 @@ fn attr_modules_build() -> Vec<Vec<u8>> {
         }
     }
     // --- 64-bit tables (memory64 proposal): imported/local, active segments with i64 offsets
-    for imported in [false, true] {
+    for (imported, max) in [(false, Some(9u64)), (true, Some(9)), (false, Some(0x1_0000_0000)), (true, Some(0x1_0000_0000)), (true, Some(0x2_0000_0003)), (false, None)] {
         let mut m = MSpec::default();
         m.types.push((vec![], vec![]));
         m.imports.push(Import { module: "env".into(), field: "o64".into(), kind: ImportKind::Global(GlobalTy { ty: VT::I64, mutable: false }) });
-        let t = TableTy { elem: VT::FuncRef, lim: Limits { min: 4, max: Some(9), shared: false, is64: true } };
+        let t = TableTy { elem: VT::FuncRef, lim: Limits { min: 4, max, shared: false, is64: true } };
         if imported {
             m.imports.push(Import { module: "env".into(), field: "t64".into(), kind: ImportKind::Table(t) });
         } else {
